@@ -66,6 +66,8 @@ META = {
     "C04": _m("proof", PLACE, "multiset of emitted rows = placement oracle; nothing else emitted", [A_CASADI, A_OPTI, A_FLOAT, A_PY]),
     "C05": _m("proof", ["stage:Stage.add_objective", "direct_method:DirectMethod.fill_placeholders_integral", "sampling_method:SamplingMethod.fill_placeholders_sum_control", "sampling_method:SamplingMethod.fill_placeholders_sum_control_plus", "sampling_method:SamplingMethod.fill_placeholders_integral_control", "sampling_method:SamplingMethod.fill_placeholders_at_t0", "sampling_method:SamplingMethod.fill_placeholders_at_tf", "sampling_method:SamplingMethod.add_objective", "direct_method:OptiWrapper.add_objective", "direct_method:OptiWrapper.transcribe_placeholders", "placeholders:TranscribedPlaceholders.__call__"], "objective handed to Opti.minimize = sum of declared terms", [A_CASADI, A_OPTI, A_FLOAT, A_PY]),
     "C06": _m("proof", ["sampling_method:Grid.__call__", "sampling_method:FixedGrid.bounds_T", "sampling_method:UniformGrid.bounds_T", "sampling_method:UniformGrid.normalized", "sampling_method:GeometricGrid.normalized", "sampling_method:GeometricGrid.growth_factor", "sampling_method:GeometricGrid.bounds_T", "sampling_method:FreeGrid.bounds_T", "sampling_method:SamplingMethod.add_variables_V_control_finalize", "sampling_method:SamplingMethod.add_coupling_constraints", "sampling_method:SamplingMethod.get_DT_at", "sampling_method:SamplingMethod.get_DT_control_at"], "grid = declared partition; coupling rows equivalent to it", [A_CASADI, A_OPTI, A_FLOAT, A_PY]),
+    "C07": _m("proof", ["stage:Stage.sample", "stage:Stage._sample", "stage:Stage._parse_grid", "stage:Stage._grid_control", "stage:Stage._grid_integrator", "stage:Stage._grid_integrator_roots", "stage:Stage.value", "stage:Stage._expr_apply", "stage:Stage._get_subst_set", "sampling_method:SamplingMethod.eval_at_control", "sampling_method:SamplingMethod.eval_at_integrator", "sampling_method:SamplingMethod.eval_at_integrator_root", "casadi_helpers:DM2numpy", "solution:OcpSolution.sample", "placeholders:TranscribedPlaceholders.__call__"], "sample(e, grid) column i = e at the values of point i; one time entry per column; DM2numpy index map", [A_CASADI, A_OPTI, A_FLOAT, A_PY, "A-NUMPY: numpy reshape/transpose semantics (DM2numpy is enumerated with the real numpy)"]),
+    "C08": _m("proof", ["stage:Stage._grid_intg_fine", "stage:Stage.sampler", "sampling_method:SamplingMethod.intg_rk", "sampling_method:SamplingMethod.intg_expl_euler", "direct_collocation:DirectCollocation.add_constraints", "multiple_shooting:MultipleShooting.add_constraints", "single_shooting:SingleShooting.add_constraints"], "refined samples lie on the per-step polynomial, whose end-point/slope/interpolation conditions are proved; every r-th entry equals the integrator sample", [A_CASADI, A_OPTI, A_FLOAT, A_PY, A_MATH_RK]),
     "C09": _m("proof", ["stage:Stage.set_value", "stage:Stage._param_value", "sampling_method:SamplingMethod.add_parameter", "sampling_method:SamplingMethod.set_parameter", "sampling_method:SamplingMethod.set_value", "sampling_method:SamplingMethod.get_p_control_at", "sampling_method:SamplingMethod.get_p_control_plus_at", "sampling_method:SamplingMethod.get_p_sys"], "parameters enter the NLP exactly as per-interval values", [A_CASADI, A_OPTI, A_FLOAT, A_PY]),
     "C10": _m("proof", ["stage:Stage.set_initial", "sampling_method:SamplingMethod.set_initial", "direct_collocation:DirectCollocation.set_initial", "direct_method:DirectMethod.set_initial", "direct_method:OptiWrapper.set_initial", "direct_method:OptiWrapper.transcribe_placeholders", "sampling_method:SamplingMethod.transcribe"], "starting value of every decision variable (read back in physical units) = the guess oracle", [A_CASADI, A_OPTI, A_FLOAT, A_PY]),
     "C11": _m("proof", ["direct_method:DirectMethod.fill_placeholders_T", "direct_method:DirectMethod.fill_placeholders_t0", "stage:Stage.set_T", "stage:Stage.set_t0", "sampling_method:SamplingMethod.add_variables_V"], "free-time NLP = fixed-time oracle with T a variable plus T>=0", [A_CASADI, A_OPTI, A_FLOAT, A_PY]),
